@@ -421,10 +421,11 @@ def manager_tracking(ctx, d):
     # frame level
     for i, res in enumerate(results):
         prev = results[i - 1].object_results if i > 0 else []
-        for ts in res.metrics_score.tracking_scores:
+        for ts, row in zip(res.metrics_score.tracking_scores, MG.configured_rows(ctx, d, res.metrics_score.tracking_scores, "frame-tracking")):
             mode = ts.matching_mode.name
-            for L, clear in zip(targets, ts.clears):
-                thr = clear.matching_threshold_list[0]
+            ctx.require(len(ts.clears) == len(targets), "clear-count", lambda: f"{len(ts.clears)} CLEAR objects for {len(targets)} target labels")
+            for li, (L, clear) in enumerate(zip(targets, ts.clears)):
+                thr = row[li] if row is not None else clear.matching_threshold_list[0]  # the label's CONFIGURED threshold
                 ref = RC.accumulate([_ref_bucket(prev, L, targets, pol, mode, thr), _ref_bucket(res.object_results, L, targets, pol, mode, thr)])
                 num_gt = sum(1 for g in res.frame_ground_truth.objects if g.semantic_label.label.value == L)
                 ctx.require(clear.num_ground_truth == num_gt, "frame-num-gt", lambda: f"frame {i} label {L}: CLEAR counts {clear.num_ground_truth} GTs, critical GTs of that label: {num_gt}")
@@ -438,10 +439,10 @@ def manager_tracking(ctx, d):
     with ctx.under_test("get_scene_result"):
         scene = run["mgr"].get_scene_result()
     if scene is not None:
-        for ts in scene.tracking_scores:
+        for ts, row in zip(scene.tracking_scores, MG.configured_rows(ctx, d, scene.tracking_scores, "scene-tracking")):
             mode = ts.matching_mode.name
-            for L, clear in zip(targets, ts.clears):
-                thr = clear.matching_threshold_list[0]
+            for li, (L, clear) in enumerate(zip(targets, ts.clears)):
+                thr = row[li] if row is not None else clear.matching_threshold_list[0]
                 hist = [[]] + [_ref_bucket(r.object_results, L, targets, pol, mode, thr) for r in results]
                 ref = RC.accumulate(hist)
                 num_gt = sum(1 for r in results for g in r.frame_ground_truth.objects if g.semantic_label.label.value == L)
@@ -491,10 +492,10 @@ def manager_tracking2d(ctx, d):
     results = run["results"]
     for i, res in enumerate(results):
         prev = results[i - 1].object_results if i > 0 else []
-        for ts in res.metrics_score.tracking_scores:
+        for ts, row in zip(res.metrics_score.tracking_scores, MG.configured_rows(ctx, d, res.metrics_score.tracking_scores, "frame-tracking2d")):
             mode = ts.matching_mode.name
-            for L, clear in zip(targets, ts.clears):
-                thr = clear.matching_threshold_list[0]
+            for li, (L, clear) in enumerate(zip(targets, ts.clears)):
+                thr = row[li] if row is not None else clear.matching_threshold_list[0]
                 ref = RC.accumulate([_ref_bucket(prev, L, targets, pol, mode, thr), _ref_bucket(res.object_results, L, targets, pol, mode, thr)])
                 _check_against_ref(ctx, clear, ref, clear.num_ground_truth, what=f"2D frame {i} {mode} {L}: ")
             _check_sum(ctx, ts, f"2D frame {i} {mode}: ")
@@ -503,10 +504,10 @@ def manager_tracking2d(ctx, d):
         scene = run["mgr"].get_scene_result()
     nt = False
     if scene is not None:
-        for ts in scene.tracking_scores:
+        for ts, row in zip(scene.tracking_scores, MG.configured_rows(ctx, d, scene.tracking_scores, "scene-tracking2d")):
             mode = ts.matching_mode.name
-            for L, clear in zip(targets, ts.clears):
-                thr = clear.matching_threshold_list[0]
+            for li, (L, clear) in enumerate(zip(targets, ts.clears)):
+                thr = row[li] if row is not None else clear.matching_threshold_list[0]
                 ref = RC.accumulate([[]] + [_ref_bucket(r.object_results, L, targets, pol, mode, thr) for r in results])
                 _check_against_ref(ctx, clear, ref, clear.num_ground_truth, what=f"2D scene {mode} {L}: ")
                 nt = nt or ref["n_eval"] >= 2
